@@ -518,6 +518,9 @@ def _amen_solve_python(A, b, nswp=22, x0=None, eps=1e-10, rmax=1024, max_full=50
                         solution_now = tn.reshape(solution_now, [-1, 1])
 
                     solution_now = previous_solution + solution_now
+                    if not norm_rhs > 0:
+                        # the local right-hand side vanishes: the local solution is the zero vector (what the direct solver returns)
+                        solution_now = tn.zeros_like(solution_now)
                     res_old = tn.linalg.norm(
                         Op.matvec(previous_solution, False)-rhs)/norm_rhs
                     res_new = tn.linalg.norm(
